@@ -271,6 +271,42 @@ fn seeds() -> Vec<(&'static str, Prog)> {
             v.push((tag, Prog { sense: "min".into(), obj: id("z"), cons, consts: consts.into_iter().map(|(n, e)| (n.to_string(), e)).collect(), decls: vec![zreal()] }));
         }
     }
+    // enumerate over entries that are themselves TUPLES (zip results, edges): the element is `(entry, position)`, so the
+    // two-name pattern `(_, i)` binds i to the position, not to a component of the entry - deterministic
+    {
+        let zreal = || Decl { vars: vec![VarName::Simple("z".into())], ty: DomT::Real(None), iters: vec![] };
+        let xs = || decl("x", vec![it1("a", range(int(0), int(9), false))], DomT::Real(Some((int(0), int(9)))));
+        let zipwk = || call("zip", vec![id("W"), id("K")]);
+        let g = E::Lit(V::Graph(vec![GNode { name: "A".into(), edges: vec![GEdge { from: "A".into(), to: "B".into(), w: Some(7.0) }, GEdge { from: "A".into(), to: "C".into(), w: None }] }, GNode { name: "B".into(), edges: vec![GEdge { from: "B".into(), to: "C".into(), w: Some(5.0) }] }, GNode { name: "C".into(), edges: vec![] }]));
+        let wk = || vec![("W".to_string(), data(&[5, 6, 7])), ("K".to_string(), data(&[8, 4, 3]))];
+        for (src, consts) in [(zipwk(), wk()), (call("zip", vec![id("K"), id("W"), id("K")]), wk()), (call("edges", vec![id("G")]), vec![("G".to_string(), g.clone())]), (call("enumerate", vec![id("W")]), wk())] {
+            // position used as index, coefficient and constraint name
+            v.push(("enumerate-of-tuples", Prog { sense: "min".into(), obj: E::Scp("sum".into(), vec![itn(&["_", "i"], call("enumerate", vec![src.clone()]))], Box::new(bin(Op::Mul, bin(Op::Add, id("i"), int(1)), cv("x", vec![Ix::Id("i".into())])))),
+                cons: vec![Cons { name: Some(VarName::Cv("pos".into(), vec![Ix::Id("i".into())])), lhs: cv("x", vec![Ix::Id("i".into())]), rel: Some((">=".into(), id("i"))), iters: vec![itn(&["_", "i"], call("enumerate", vec![src.clone()]))] }],
+                consts: consts.clone(), decls: vec![xs()] }));
+            // the one-name and the over-long pattern next to it
+            v.push(("enumerate-of-tuples", Prog { sense: "min".into(), obj: int(1),
+                cons: vec![Cons { name: None, lhs: bin(Op::Mul, call("len", vec![call("enumerate", vec![src.clone()])]), id("z")), rel: Some((">=".into(), E::Scp("sum".into(), vec![itn(&["_", "i"], call("enumerate", vec![src.clone()]))], Box::new(id("i"))))), iters: vec![] },
+                    Cons { name: None, lhs: id("z"), rel: Some((">=".into(), id("i"))), iters: vec![itn(&["e", "i"], call("enumerate", vec![src.clone()])), itn(&["f", "j"], call("enumerate", vec![src.clone()]))] }],
+                consts: consts.clone(), decls: vec![zreal()] }));
+            v.push(("enumerate-of-tuples", Prog { sense: "min".into(), obj: int(1),
+                cons: vec![Cons { name: None, lhs: id("z"), rel: Some((">=".into(), id("i"))), iters: vec![itn(&["a", "i", "j"], call("enumerate", vec![src.clone()]))] }],
+                consts, decls: vec![zreal()] }));
+        }
+    }
+    // a where-constant divided by a NON-ZERO value of tiny magnitude is a number, not a division by zero - deterministic
+    {
+        let zreal = || Decl { vars: vec![VarName::Simple("z".into())], ty: DomT::Real(None), iters: vec![] };
+        for tiny in [1e-16f64, 2e-16, 1e-17, 1e-30, 1e-300, 1e-307] {
+            // numerators of the same magnitude, so that the quotient is an ordinary number the unrolled text can spell
+            for (num_e, neg) in [(num(3.0 * tiny), false), (num(0.5 * tiny), true), (bin(Op::Mul, int(2), id("t")), false), (bin(Op::Mul, call("len", vec![id("A")]), id("t")), true)] {
+                let d = if neg { E::Un(UOp::Neg, Box::new(E::Lit(V::Num(tiny)))) } else { E::Lit(V::Num(tiny)) };
+                v.push(("tiny-divisor", Prog { sense: "min".into(), obj: id("z"),
+                    cons: vec![Cons { name: None, lhs: bin(Op::Mul, id("s"), id("z")), rel: Some((">=".into(), int(1))), iters: vec![] }],
+                    consts: vec![("A".to_string(), data(&[1, 2, 3])), ("t".to_string(), d), ("s".to_string(), bin(Op::Div, num_e, id("t")))], decls: vec![zreal()] }));
+            }
+        }
+    }
     // graphs in which a node occurs only as an edge DESTINATION: nodes(G) / V(G) are the declared nodes, in declaration order
     for (k, g) in [
         vec![("A", vec![("B", None), ("C", None)]), ("B", vec![("C", Some(2.0))])],
